@@ -20,7 +20,9 @@ def one(args):
         mod, ctx = analyse(prop, "/repo", "quick", sources=src)
     except Exception as ex:
         return owner, prop, "crash:" + type(ex).__name__ + ":" + str(ex)[:100], []
-    v = [f"{r.rule} {r.construct[:110]} -- {r.msg[:160]}" for r in ctx.results if r.status == VIOLATION]
+    from ocv.core import load_known
+    known = {(k.get("rule"), k.get("function"), " ".join(k.get("construct", "").split())) for k in load_known() if k.get("property") == prop and k.get("status") == "open"}
+    v = [f"{r.rule} {r.construct[:110]} -- {r.msg[:160]}" for r in ctx.results if r.status == VIOLATION and (r.rule, r.func, r.construct) not in known]
     u = [f"{r.rule} {r.construct[:110]} -- {r.msg[:160]}" for r in ctx.results if r.status == UNKNOWN]
     return owner, prop, ("violation" if v else ("undecided" if u else "ok")), (v or u)[:2]
 
